@@ -153,6 +153,37 @@ def replay_behaviour(ctx, beh, with_u):
     ctx.case(('prog', tuple(word)))
 
 
+def run_graph(ctx, quick):
+    """graph-state circuits: every simple graph on <= 4 (5) vertices; exact amplitudes and stabilizer circuits"""
+    import numqi
+    r = tlc.run('qsim/MC_Graph.tla', 'qsim/MC_Graph_%s.cfg' % ('q' if quick else 't'), dump=True, timeout=3000)
+    ctx.add_model('MC_Graph(n<=%d)' % (4 if quick else 5), r)
+    for st in tlc.parse_dump(r):
+        n = st['n']
+        if n < 2:
+            continue
+        ev = st['edges']
+        E = [tuple(e) for e in (ev[1] if isinstance(ev, tuple) else ev)]
+        A = np.zeros((n, n), dtype=np.uint8)
+        for i, j in E:
+            A[i - 1, j - 1] = A[j - 1, i - 1] = 1
+        want = zo_vec(st['psi']['v'], st['psi']['e'])
+        data = dict(n=n, edges=[[i - 1, j - 1] for i, j in sorted(E)])
+        ctx.case(('graph', n, tuple(sorted(E))))
+        try:
+            q, circs = numqi.sim.build_graph_state(A, return_stabilizer_circ=True)
+            if q.shape != want.shape or np.abs(q - want).max() > TOL:
+                ctx.violation('C03:build_graph_state:amplitudes', 'graph state differs from prod CZ_edges H^n |0..0>', data)
+            for i, c in enumerate(circs):
+                m = c.num_qubit   # the circuit only spans the qubits it touches; the rest are (MSB-first) trailing qubits
+                out = (c.to_unitary() @ want.astype(complex).reshape(2 ** m, -1)).reshape(-1)
+                if m > n or np.abs(out - want).max() > TOL:
+                    ctx.violation('C03:build_graph_state:stabilizer-circuit', 'stabilizer circuit K_%d does not fix the graph state' % i, data)
+            ctx.traces += 1
+        except Exception as ex:
+            ctx.violation('C03:exception:build_graph_state', type(ex).__name__ + ': ' + str(ex)[:160], data)
+
+
 def run(ctx):
     quick = ctx.tier == 'quick'
     ctx.rule = ('routing: every (n, ordered target tuple of size 1..3, control subset) for n<=%d with every matrix unit as gate, all basis columns; '
@@ -164,6 +195,7 @@ def run(ctx):
     r = tlc.run('qsim/MC_Embed.tla', 'qsim/MC_Embed_%s.cfg' % ('q' if quick else 't'), dump=True, timeout=3000)
     ctx.add_model('MC_Embed(n<=%d)' % (3 if quick else 4), r)
     ctx.traces += replay_routing(ctx, list(tlc.parse_dump(r)))
+    run_graph(ctx, quick)
     for cfg, num, with_u in [('3', 60 if quick else 600, True), ('4', 40 if quick else 400, False)]:
         r = tlc.run('qsim/Sim_Circuit.tla', 'qsim/Sim_Circuit_%s.cfg' % cfg, simulate=dict(num=num, file=True), depth=9, seed=ctx.seed + 1, workers=8, timeout=3000)
         ctx.add_model('Sim_Circuit(QN=%s)' % cfg, r, exhaustive=False)
